@@ -3,8 +3,8 @@ import ZChain.Base.Coin
 # Model of `smartcontract/faucetsc` (`sc.go`, `models.go` validate)
 
 `Execute` → `getGlobalVariables` (global window reset), `pour` → `getUserVariables` (user window reset) →
-`validPourRequest` (all three checks use **`gn.PourAmount`**) → amount = `t.Value` if `0 < t.Value < MaxPourAmount`
-else `PourAmount` → transfer faucet→client, `Used += amount` (user and global), save both; `refill`
+amount = `t.Value` if `0 < t.Value < MaxPourAmount` else `PourAmount` → `validPourRequest` (all three checks use that
+amount, repair 4b549c9) → transfer faucet→client, `Used += amount` (user and global), save both; `refill`
 (`clientBalance ≥ t.Value` → transfer client→faucet, save the global node — including a window reset);
 `GlobalNode.validate`.
 
@@ -102,32 +102,30 @@ def pourAmount (conf : Conf) (value : Nat) : Nat :=
 def credit (accounts : List (Nat × Nat)) (c amount : Nat) : List (Nat × Nat) :=
   if amount = 0 then accounts else upsert accounts c ((lookup accounts c).getD 0 + amount)
 
-/-- the `pour` transaction. -/
+/-- the `pour` transaction. Since repair 4b549c9 the amount that will be poured is computed FIRST and
+`validPourRequest` checks the faucet balance, the periodic limit and the global limit against THAT amount
+(before: against `PourAmount`, while `t.Value` was poured). -/
 def pour (st : St) (c value : Nat) (now : Int) : Res :=
   let (gUsed, gStart) := globalVars st now
   let u := userVars st c now
+  let amount := pourAmount st.conf value
   match st.faucet with
   | none => .err .noFaucetState
   | some bal =>
-    if bal < st.conf.pour then .err .pourGtBalance
-    else match addCoin st.conf.pour u.used with
+    if bal < amount then .err .pourGtBalance
+    else match addCoin amount u.used with
     | .error e => .err (.coin e)
     | .ok t =>
       if st.conf.periodic < t then .err .periodicLimit
-      else match addCoin st.conf.pour gUsed with
+      else match addCoin amount gUsed with
       | .error e => .err (.coin e)
       | .ok tg =>
         if st.conf.global < tg then .err .globalLimit
         else
-          let amount := pourAmount st.conf value
-          match addCoin u.used amount with
-          | .error e => .err (.coin e)
-          | .ok uu => match addCoin gUsed amount with
-            | .error e => .err (.coin e)
-            | .ok gg =>
-              if bal < amount then .rejected      -- the engine cannot apply the queued transfer
-              else .ok { st with gUsed := gg, gStart := some gStart, users := upsert st.users c { u with used := uu },
-                                 faucet := some (bal - amount), accounts := credit st.accounts c amount } amount
+          -- (`user.Used = AddCoin(user.Used, amount)` and the global one repeat the two sums: they cannot fail;
+          --  the queued transfer of `amount ≤ bal` can always be applied by the engine)
+          .ok { st with gUsed := tg, gStart := some gStart, users := upsert st.users c { u with used := t },
+                        faucet := some (bal - amount), accounts := credit st.accounts c amount } amount
 
 /-- the `refill` transaction. -/
 def refill (st : St) (c value : Nat) (now : Int) : Res :=
